@@ -33,7 +33,103 @@ pub fn channels<T: DeserializeOwned + Serialize + 'static>(text: &str) -> Vec<(&
     out.push(("Json::from_slice", show(guarded({ let t = t.clone(); move || Json::from_slice::<T>(t.as_bytes()) }))));
     out.push(("Json::from_reader", show(guarded({ let t = t.clone(); move || Json::from_reader::<_, T>(std::io::Cursor::new(t.into_bytes())) }))));
     out.push(("Json::deserialize", show(guarded({ let t = t.clone(); move || serde_json::from_str::<Value>(&t).map_err(|_| ()).and_then(|v| Json::deserialize::<T>(&v).map_err(|_| ())) }))));
+    // the pretty interchange reads exactly as the compact one does
+    out.push(("JsonPretty::from_slice", show(guarded({ let t = t.clone(); move || in_toto::interchange::JsonPretty::from_slice::<T>(t.as_bytes()) }))));
+    out.push(("JsonPretty::from_reader", show(guarded({ let t = t.clone(); move || in_toto::interchange::JsonPretty::from_reader::<_, T>(std::io::Cursor::new(t.into_bytes())) }))));
+    out.push(("JsonPretty::deserialize", show(guarded({ let t = t.clone(); move || serde_json::from_str::<Value>(&t).map_err(|_| ()).and_then(|v| in_toto::interchange::JsonPretty::deserialize::<T>(&v).map_err(|_| ())) }))));
+    // a reader that hands out one byte per call (a pipe, a socket)
+    out.push(("from_reader(1 byte at a time)", show(guarded({ let t = t.clone(); move || serde_json::from_reader::<_, T>(OneByte(t.into_bytes(), 0)) }))));
     out
+}
+
+struct OneByte(Vec<u8>, usize);
+impl std::io::Read for OneByte {
+    fn read(&mut self, buf: &mut [u8]) -> std::io::Result<usize> {
+        if self.1 >= self.0.len() || buf.is_empty() {
+            return Ok(0);
+        }
+        buf[0] = self.0[self.1];
+        self.1 += 1;
+        Ok(1)
+    }
+}
+
+fn object_paths(v: &Value, cur: &mut Vec<String>, out: &mut Vec<Vec<String>>) {
+    match v {
+        Value::Object(m) => {
+            if !m.is_empty() {
+                out.push(cur.clone());
+            }
+            for (k, x) in m {
+                cur.push(k.clone());
+                object_paths(x, cur, out);
+                cur.pop();
+            }
+        }
+        Value::Array(xs) => {
+            for (i, x) in xs.iter().enumerate() {
+                cur.push(format!("#{}", i));
+                object_paths(x, cur, out);
+                cur.pop();
+            }
+        }
+        _ => {}
+    }
+}
+
+/// `doc` with one member of one of its objects present a second time under another spelling of its name
+fn alias_member(doc: &Value, r: &mut Rng) -> Option<Value> {
+    let mut ps = vec![];
+    object_paths(doc, &mut vec![], &mut ps);
+    if ps.is_empty() {
+        return None;
+    }
+    // (small objects - digest maps, key values - are where enumerated names live: prefer them)
+    ps.sort_by_key(|p| p.len());
+    let p = if r.chance(2, 3) { ps[ps.len() - 1 - r.below((ps.len() + 1) / 2)].clone() } else { r.pick(&ps).clone() };
+    let mut out = doc.clone();
+    let mut cur = &mut out;
+    for seg in &p {
+        cur = match cur {
+            Value::Object(m) => m.get_mut(seg)?,
+            Value::Array(xs) => xs.get_mut(seg.strip_prefix('#')?.parse::<usize>().ok()?)?,
+            _ => return None,
+        };
+    }
+    let m = cur.as_object_mut()?;
+    let keys: Vec<String> = m.keys().cloned().collect();
+    let k0 = r.pick(&keys).clone();
+    let k = match r.below(5) {
+        0 => k0.to_uppercase(),
+        1 => match k0.find(|c: char| c.is_ascii_digit()) {
+            Some(i) => format!("{}-{}", &k0[..i], &k0[i..]),
+            None => format!("{}_", k0),
+        },
+        2 => k0.replace('-', "_"),
+        3 => k0.replace('_', "-"),
+        _ => {
+            let mut cs: Vec<char> = k0.chars().collect();
+            if let Some(c) = cs.first_mut() {
+                *c = c.to_ascii_uppercase();
+            }
+            cs.into_iter().collect()
+        }
+    };
+    if k == k0 || m.contains_key(&k) {
+        return None;
+    }
+    let v = match m.get(&k0) {
+        Some(Value::String(s)) if !s.is_empty() => {
+            let mut b: Vec<char> = s.chars().collect();
+            let i = r.below(b.len());
+            b[i] = if b[i] == '1' { '2' } else { '1' };
+            Value::String(b.into_iter().collect())
+        }
+        Some(x) => x.clone(),
+        None => return None,
+    };
+    m.insert(k, v);
+    Some(out)
 }
 
 /// compact text of a value with the members of every object in reverse (descending) order
@@ -106,6 +202,14 @@ fn case<T: DeserializeOwned + Serialize + 'static>(sink: &mut Sink, r: &mut Rng,
     // member that is already there -, value of another shape)
     for _ in 0..2 {
         near.push(("mutation".to_string(), crate::c16_doc::mutate(doc, r)));
+    }
+    // one member given a second time under another spelling of its name (other letter case, a hyphen
+    // before the digits, `_` for `-`, a capital first letter) with other content: a reader that takes
+    // both spellings for one name would let the order of the members decide
+    for _ in 0..2 {
+        if let Some(d2) = alias_member(doc, r) {
+            near.push(("alias".to_string(), d2));
+        }
     }
     for (path, d2) in &near {
         // member order in the text: sorted (as a JSON tree holds them) and reversed
